@@ -1,6 +1,6 @@
 (** C16 — global progress (no deadlock), guarded shared state, isolation across sessions. *)
 From Coq Require Import String List Bool Arith.
-From P9V Require Import Locks.Sym Locks.Locks Locks.LockProofs Locks.Order gen.LockGen Locks.Tables Locks.TableProofs Locks.Iso.
+From P9V Require Import Locks.Sym Locks.Locks Locks.LockProofs Locks.Order gen.LockGen Locks.Tables Locks.TableProofs Locks.Runs Locks.Iso.
 Import ListNotations.
 
 (** Generic: any number of threads, every interleaving.  If every request a thread makes while
@@ -57,6 +57,23 @@ Theorem C16_no_deadlock_sites : forall (ths : list (site * (snode -> node))),
   ~ (forall i t, nth_error s i = Some t -> rest t <> [] -> blocked clock ccall s i).
 Proof. exact sites_no_deadlock. Qed.
 Print Assumptions C16_no_deadlock_sites.
+
+(** RUNS (Locks/Runs.v): any number of goroutines, each running any finite SUCCESSION of site fragments, every
+    fragment under its own valuation (successive lock episodes of a request, then the next request the
+    connection serves, ...).  Discipline D is closed under concatenation of plans that end with nothing held,
+    so the fragment theorem lifts to runs of unbounded length.  Still by inspection of the generator: that a
+    Go handler's execution is such a succession of the table's fragments. *)
+Theorem C16_no_deadlock_runs : forall (ths : list (list (site * (snode -> node)))),
+  (forall run st rho, In run ths -> In (st, rho) run -> In st sites /\ carries st = true /\ respects rho (full_path st)) ->
+  forall s, reachable clock clock_eqb ccall ccall_eqb (map run_thread ths) s ->
+  (exists i t, nth_error s i = Some t /\ rest t <> []) ->
+  ~ (forall i t, nth_error s i = Some t -> rest t <> [] -> blocked clock ccall s i).
+Proof. exact runs_no_deadlock. Qed.
+Print Assumptions C16_no_deadlock_runs.
+(** every fragment ends with nothing held and no backend call in progress (what makes the succession meaningful) *)
+Theorem C16_fragment_closed : forall st, In st sites -> carries st = true ->
+  forall rho, respects rho (full_path st) -> closed clock clock_eqb ccall ccall_eqb (site_thread rho st).
+Proof. exact site_thread_closed. Qed.
 
 (** no backend call (which may block as long as the backend likes) is made while holding a
     connection-wide or leaf mutex; waits for other goroutines happen with nothing held *)
